@@ -129,6 +129,7 @@ func WorkerMain(args []string) int {
 		}
 	}()
 
+	core.ProgressHook = func() { atomic.StoreInt64(&caseStartCPU, cpuMs()) }
 	for _, idx := range cases {
 		i := idx
 		send(Message{Begin: &i})
